@@ -942,7 +942,10 @@ pub fn split(input_string_value: &Value, delimiter_string_value: &Value) -> Valu
   if let Value::String(input_string) = input_string_value {
     if let Value::String(delimiter_string) = delimiter_string_value {
       if let Ok(re) = Regex::new(delimiter_string) {
-        return Value::List(Values::new(re.split(input_string).map(|s| Value::String(s.to_string())).collect()));
+        // a delimiter that matches the empty string is an error in XPath (FORX0003), null in FEEL
+        if !re.is_match("") {
+          return Value::List(Values::new(re.split(input_string).map(|s| Value::String(s.to_string())).collect()));
+        }
       }
     }
   }
